@@ -15,6 +15,8 @@ shares intact:
  (f) every subset of shares carrying one representative damage of each class;
  (g) no damage, but a fresh reader whose guess of the segment size is too small (10 or 16 against 22):
      partial reads from every third offset with four lengths.
+ (h) shares that are self-consistent but whose ciphertext does not match the ciphertext hash tree of the UEB
+     (wrong at the encoder), for every choice of bad segments of a catalogue x 6 read ranges.
 Oracle: bytes handed to the consumer are always a prefix of the requested plaintext; the outcome
 is the exact plaintext or an errback; with >= k untouched shares on honest servers the read
 succeeds; every read terminates.
@@ -140,6 +142,14 @@ def run(tier, seed):
     pl_ok = {str(s_): [s_] for s_ in range(3)}
     gcases = [dict(F1, S=3, placement=pl_ok, guess=gs, groups=[[[off, sz]]]) for gs in (10, 16) for off in range(0, 61, 3) for sz in (None, 1, 16, 30)]
     res.merge(common.pmap(lib_imm.explore_chunk, gcases, (seed, 0, 0, None, "C02")))
+    # (h) the ENCODER's side is wrong: every share is self-consistent (block and share hash trees, UEB) but the
+    # ciphertext of some segments does not match the ciphertext hash tree the UEB commits to - reads that touch
+    # such a segment must fail, the others deliver their bytes
+    bcases = []
+    for bad in ([0], [1], [2], [0, 2], [0, 1, 2]):
+        for grp in ([[0, None]], [[0, 10]], [[22, 22]], [[50, 100]], [[0, 10]], [[30, 31]]):
+            bcases.append(dict(F1, S=3, placement=pl_ok, bad_ct=bad, groups=[grp]))
+    res.merge(common.pmap(lib_imm.explore_chunk, bcases, (seed, 0, 0, None, "C02")))
     n0 = res.counts.get("executions", 0)
     # lying servers: every placement of <= f lies over all read calls of a full download
     f_lie = 1 if tier == "quick" else 2
